@@ -75,6 +75,9 @@ func VerifH_C04_Effect() {
 	run := runStep(false, true)
 	defer verifCleanup()
 	req := run.req
+	// a DELETE refused for its Depth header (400, C01) says nothing about
+	// the preconditions
+	vrt.Assume(!(req.method == "DELETE" && req.hasDepth && req.depth != "infinity"))
 	exists := run.before.kind[req.pi] != kAbsent
 	cur := ""
 	if exists {
